@@ -1,5 +1,5 @@
 (* GENERATED on every run by harness/props/c19_src.py from the syntax tree of BaseParam.__setattr__ / __post_init__. Do not edit.
-   source: /var/tmp/coord/wt_s/commonroad/visualization/draw_params.py sha1=3fb6e4d8b121 *)
+   source: /repo/commonroad/visualization/draw_params.py sha1=b78200e35689 *)
 From Coq Require Import String List.
 Import ListNotations.
 From CR Require Import Model.DrawParamsSrc.
